@@ -22,7 +22,7 @@ PID = 'C18'
 
 META = {
     'technique': 'forward abstract interpretation (clamp-idiom lattice) of the two quantizer cells over the event-CFG of the rate-control kernel and the recode decision, with callee may-store summaries from the call graph and reaching-definition classification of locals; table-subscript classification; who-writes inventory of the cells',
-    'text': 'Decides that on every path through the rate-control kernel and the recode decision the frame quantizer index and the picture QP that are handed to the coding stages were last produced by a clamp to the configured [min_qp_allowed, max_qp_allowed] (or are the configured QP of the fixed-QP mode), for every rate-control mode and every branch - deleting a clamp, adding a late tweak after it, or assigning from an unclamped helper is reported with the path. It does not decide that the clamped values are the right ones, nor block / segment level deltas. Also decided: the bounds themselves are the user's - for every rate-control mode copy_api_from_app takes min/max_qp_allowed over from the caller (the full-range override is reachable only for fixed-QP encoding).',
+    'text': 'Decides that on every path through the rate-control kernel and the recode decision the frame quantizer index and the picture QP that are handed to the coding stages were last produced by a clamp to the configured [min_qp_allowed, max_qp_allowed] (or are the configured QP of the fixed-QP mode), for every rate-control mode and every branch - deleting a clamp, adding a late tweak after it, or assigning from an unclamped helper is reported with the path. It does not decide that the clamped values are the right ones, nor block / segment level deltas. Also decided: the bounds themselves are those the user configured - for every rate-control mode copy_api_from_app takes min/max_qp_allowed over from the caller (the full-range override is reachable only for fixed-QP encoding).',
     'note': 'the qp-file path stores a caller-supplied per-picture QP after only logging that it is out of range: recorded finding; svt_av1_set_quantizer is dead code and ignored',
     'ref': 'DESIGN.md section 5 C18',
 }
